@@ -35,14 +35,15 @@ func init() { core.Register(c05{}) }
 
 func (c05) ID() string { return "C05" }
 func (c05) Rule() string {
-	return "plans (half of the signing-authority JWS ones with an authentic signing time of .500 s, re-signed by hand): chain length 1-4 with unique subject tokens, a result vector in {OK, NonRevokable, Unknown, Revoked}^n with method annotations (OCSP, CRL, OCSP-fallback-CRL) and per-server errors, or a validator-level error (scripted or injected at the validator's fault point), or a mis-sized answer (nil / shorter than the chain, nil error); context-aware validator or deprecated client; revocation action enforce / log / skip; scheme notary.x509 or signing-authority; JWS / COSE. 1-3 rounds on one long-lived verifier, the validator's answers changing between rounds (a certificate revoked later, the service failing later, recovering later). non-trivial: the vector is not all-OK or the answer is faulty; distinct: hash of (vector, methods, fault, interface, action, scheme, verdict)"
+	return "plans (half of the signing-authority JWS ones with an authentic signing time of .500 s, re-signed by hand): chain length 1-4 with unique subject tokens, a result vector in {OK, NonRevokable, Unknown, Revoked}^n with method annotations (OCSP, CRL, OCSP-fallback-CRL) and per-server errors, or a validator-level error (scripted or injected at the validator's fault point), or a mis-sized answer (nil / shorter than the chain, nil error); context-aware validator or deprecated client; revocation action enforce / log / skip; scheme notary.x509 or signing-authority; JWS / COSE. in a quarter of the runs the deprecated client (finding nothing wrong) is handed over next to the validator. One plan in four is configuration B (c05_real.go): the real notation-core-go validator - through either interface, or the library's own - over simulated CRL distribution points and OCSP responders (good / revoked / invalidity date before or after signing / hold / unknown / try-later / 500 / refused / garbage / other signer / expired / stalled / a second distribution point that disagrees). 1-3 rounds on one long-lived verifier, the validator's answers changing between rounds (a certificate revoked later, the service failing later, recovering later). non-trivial: the vector is not all-OK or the answer is faulty; distinct: hash of (vector, methods, fault, interface, action, scheme, verdict)"
 }
 func (c05) Components() map[string]string {
 	return map[string]string{
 		"verifier.Verify / verifyRevocation / revocationFinalResult": "real",
-		"revocation validator": "scripted stub at the revocation.Validator / revocation.Revocation seam, recording the options it receives; failures injected at its fault point",
-		"trust store":          "scripted, healthy",
-		"signatures":           "notation-core-go SignRequest (both schemes)",
+		"revocation validator":                           "configuration A: scripted stub at the revocation.Validator / revocation.Revocation seam, recording the options it receives; failures injected at its fault point. Configuration B: the real notation-core-go validator (revocation.NewWithOptions / revocation.New / the one the library builds itself), real CRL fetcher and OCSP client",
+		"CRL distribution points, OCSP responders, HTTP": "configuration B: simulated (an http.RoundTripper; also installed as http.DefaultTransport for the library's own validator); CRLs and OCSP responses are real DER, signed by the chain's issuers",
+		"trust store":                                    "scripted, healthy",
+		"signatures":                                     "notation-core-go SignRequest (both schemes)",
 	}
 }
 
